@@ -235,6 +235,8 @@ def snapshot(obj):
         return ("dict", list(obj.keys()), {k: snapshot(v) for k, v in obj.items()})
     if isinstance(obj, np.ndarray):
         return ("arr", str(obj.dtype), obj.shape, obj.copy())
+    if isinstance(obj, pd.Series):
+        return ("series", str(obj.dtype), obj.to_numpy(copy=True), obj.index.to_numpy(copy=True), obj.name)
     return ("obj", copy.deepcopy(obj))
 
 
@@ -253,6 +255,8 @@ def same_snapshot(a, b) -> bool:
         return a[1] == b[1] and all(same_snapshot(a[2][k], b[2][k]) for k in a[1])
     if a[0] == "arr":
         return a[1] == b[1] and a[2] == b[2] and _arr_eq(a[3], b[3])
+    if a[0] == "series":
+        return a[1] == b[1] and _arr_eq(a[2], b[2]) and _arr_eq(a[3], b[3]) and a[4] == b[4]
     try:
         return bool(a[1] == b[1])
     except Exception:  # noqa: BLE001
